@@ -1010,6 +1010,8 @@ def install(it):
     def signature(it_, ctx, f):
         return SigVal(it_, f)
     insp.globals["signature"] = Builtin("inspect.signature", signature, True)
+    insp.globals["isclass"] = Builtin("inspect.isclass", lambda x: isinstance(x, (ClassVal, BuiltinClass, ExcClass)))
+    insp.globals["isfunction"] = Builtin("inspect.isfunction", lambda x: isinstance(x, FuncVal))
 
 
 class SigVal:
